@@ -27,6 +27,27 @@ def load_json(path, default):
         return default
 
 
+def contracts_of(prop):
+    """the contracts that decide a property: those written for it (explicit tag) and - verification being modular - every
+    contract on a function of one of the property's anchor files: the property's functions call these and rely on their
+    contracts, so a change that breaks one of them breaks the chain the property's proof goes through"""
+    files = set()
+    try:
+        for line in open(os.path.join(VERIF, "properties.jsonl")):
+            d = json.loads(line)
+            if d["id"] == prop:
+                files = set(d.get("anchors", {}).get("files", []))
+    except OSError:
+        pass
+
+    def module_file(target):
+        if not target:
+            return None
+        parts = target.split(".")
+        return parts[0] + "/" + parts[1] + ".py" if len(parts) >= 2 else None
+    return [c for c in C.REGISTRY if prop in c.props or module_file(c.target) in files]
+
+
 def finding_matches(f, prop, kind, **kw):
     if f.get("property") != prop or f.get("kind") != kind:
         return False
@@ -75,7 +96,7 @@ def main(argv=None):
     errors = []
 
     # ------------------------------------------------------------------ PVC (deductive)
-    classes = [c for c in C.REGISTRY if prop in c.props]
+    classes = contracts_of(prop)
     tmo = 10000 if tier == "quick" else 60000
     if tier == "thorough":
         os.environ["VF_CROSSCHECK"] = "1"
